@@ -21,7 +21,7 @@ RULE = (
 )
 ASSUMPTIONS = [
     "first pull happens at the first publication time (as connect does); later pulls strictly increasing",
-    "rational arithmetic (fractions.Fraction) is exact; finam results compared with rtol 1e-9",
+    "rational arithmetic (fractions.Fraction) is exact; finam results compared with rtol 1e-9 relative to the magnitude of the published values (which are scaled by 10^k, k in {-12,-9,-6,0,6}); no absolute floor",
     "expected reduced unit strings for the three source units are written by hand",
 ]
 
@@ -80,6 +80,9 @@ def run(case, pulls, ctx, tag=""):
     from finam.data import tools
 
     kind, step, per_time, unit = case["kind"], case["step"], case["per_time"], case["unit"]
+    # numeric scale of the published values (rates in SI units are ~1e-9): every tolerance is relative to it
+    vscale = F(10) ** int(case.get("vexp", 0))
+    floor = float(vscale)
     stepF = None if step is None else F(step).limit_denominator(1000)
     spec = ["avg", step] if kind == "avg" else ["sum", step, per_time]
     g = fm.NoGrid()
@@ -111,7 +114,7 @@ def run(case, pulls, ctx, tag=""):
         while k < len(src) and (times[k] <= p or pubs[-1][0] < p or extra > 0):
             if times[k] > p and pubs and pubs[-1][0] >= p:
                 extra -= 1
-            v = F(src[k][1], 4)
+            v = F(src[k][1], 4) * vscale
             link.out.push_data(float(v), hs.tm(times[k]))
             pubs.append((times[k], v))
             k += 1
@@ -137,7 +140,7 @@ def run(case, pulls, ctx, tag=""):
                 exp = interp_integral(pubs, prev, p, stepF) * 60 * ufac
             else:
                 exp = weights_sum(pubs, prev, p, stepF)
-        scale = max(1.0, abs(float(exp)), max(abs(float(v)) for _t, v in pubs) * (60.0 * (p - prev) if (kind == "sum" and per_time) else 1.0) * (float(ufac) if ufac else 1.0))
+        scale = max(floor, abs(float(exp)), max(abs(float(v)) for _t, v in pubs) * (60.0 * (p - prev) if (kind == "sum" and per_time) else 1.0) * (float(ufac) if ufac else 1.0))
         if abs(got - float(exp)) > 1e-9 * scale:
             ctx.violation(f"{kind}-value{tag}", f"{kind} step={step} per_time={per_time} unit={unit}: [{prev},{p}] min -> {got!r}, exact {float(exp)!r}; pubs {[(a, float(b)) for a, b in pubs]}")
             return None
@@ -177,7 +180,7 @@ def check(case, ctx):
             return
         tot1 = sum(r for a, b, r in results if b > 0)
         tot2 = sum(r for a, b, r in res2[0] if b > 0)
-        scale = max(1.0, abs(tot1), sum(abs(r) for _a, _b, r in results))
+        scale = max(float(F(10) ** int(case.get("vexp", 0))), abs(tot1), sum(abs(r) for _a, _b, r in results))
         if abs(tot1 - tot2) > 1e-9 * scale:
             ctx.violation("sum-partition-dependent", f"totals over [0,{end}] differ between partitions: {tot1} vs {tot2}")
         ctx.event("two-partitions-compared")
@@ -209,6 +212,7 @@ def case_st(draw):
         "pulls": pulls,
         "pulls2": pulls2,
         "ahead": draw(st.integers(0, 3)),
+        "vexp": draw(st.sampled_from([0, 0, 0, -9, -12, -6, 6])),
     }
 
 
@@ -230,6 +234,7 @@ def long_case(draw):
         "pulls": pulls,
         "pulls2": sorted({draw(st.integers(1, end)) for _ in range(draw(st.integers(3, 12)))}),
         "ahead": n,  # the producer runs far ahead: everything is buffered before the consumer pulls
+        "vexp": draw(st.sampled_from([0, 0, -9, 6])),
     }
 
 
